@@ -651,6 +651,11 @@ class Table(Vector):
 			if isinstance(row_spec, slice):
 				row_sliced = self[row_spec]  # Returns Table
 			elif isinstance(row_spec, int):
+				if isinstance(col_spec, str):
+					# A name means here what it means in t[name] (the stored name first); going
+					# through the row's accessor map gave another column for 'A' next to 'a'
+					# and raised for names that are not identifiers
+					return self[col_spec][row_spec]
 				# Single row -> return PyRow, then index into it
 				return self[row_spec][col_spec]
 			else:
